@@ -16,5 +16,4 @@ PY
 cd "$(dirname "$0")/.."
 git -C "$WT" diff > "mutants/$NAME.diff"
 VERIF_REPO="$WT" VERIF_EVIDENCE_DIR="$WT/.evidence" timeout -k 5 ${MUT_TIMEOUT:-900} /venv/bin/python -B run_check.py "$PROP" quick > "$WT/.out" 2>&1 < /dev/null || true
-pkill -9 -f "run_check.py $PROP quick" 2>/dev/null || true
 grep -v "^  detail" "$WT/.out" | grep "VIOLATION\|signature\|HARNESS\|INCONCLUSIVE\|quick seed" | cut -c1-220 | head -${LINES_OUT:-6}
